@@ -630,3 +630,34 @@ Example ex_store :
     = Some (bs "data:application/javascript;base64,KGZ1bmM=")
   /\ redirect_of (from_resources rs) [mk_rr false (Some (bs "perm.js"))] = None.
 Proof. vm_compute. split; reflexivity. Qed.
+
+(* ================================================================ hypotheses of the category theorems are satisfiable *)
+Example ex_redirect_rule_shape :
+  let s := mk_shape (mask_redirect_rule_option M_DEFAULT_OPTIONS) false in
+  is_redirect s = true /\ also_block_redirect s = false /\ is_important s = false /\
+  category_of s = CatNowhere /\ in_redirects s = true.
+Proof. vm_compute. repeat split; reflexivity. Qed.
+
+Example ex_redirect_shape :
+  let s := mk_shape (mask_redirect_option M_DEFAULT_OPTIONS) false in
+  is_redirect s = true /\ also_block_redirect s = true /\ is_csp s = false /\ is_removeparam s = false /\
+  is_generic_hide s = false /\ is_exception s = false /\ category_of s = CatFilters.
+Proof. vm_compute. repeat split; reflexivity. Qed.
+
+Example ex_i32_text : i32_text (bs "-2147483648") (-2147483648)%Z /\ ~ (exists z, i32_text (bs "2147483648") z).
+Proof.
+  split.
+  - apply parse_i32_spec. vm_compute. reflexivity.
+  - intros [z H]. apply parse_i32_spec in H. vm_compute in H. discriminate.
+Qed.
+
+Example ex_redirect_spec :
+  let rs := [ mk_res (bs "noop.js") [bs "noopjs"] (Kind_Mime Mime_ApplicationJavascript) (bs "KGZ1bmM=") false true 0 ] in
+  exists name r mime,
+    pick_redirect [mk_rr false (Some (bs "noopjs:3")); mk_rr true (Some (bs "other.js"))] = Some name /\
+    loaded (from_resources rs) name r /\ r_permission r = 0%N /\ r_kind r = Kind_Mime mime /\
+    l0_redirectable (r_kind r) = true.
+Proof.
+  exists (bs "noopjs"), (mk_res (bs "noop.js") [bs "noopjs"] (Kind_Mime Mime_ApplicationJavascript) (bs "KGZ1bmM=") false true 0), Mime_ApplicationJavascript.
+  vm_compute. repeat split; reflexivity.
+Qed.
